@@ -34,6 +34,7 @@ class Profile:
         self.p_post = 0.0
         self.p_lazy = 0.0
         self.p_self_merge = 0.03
+        self.p_keep = 0.0           # a user function captures (without reading) handles of other objects and declares them
         self.p_loop_send = 0.3      # sends inside a loop-constructing transaction (before the loop, between definitions, after the close)
         self.p_listen_u = 0.0       # a listener whose callback unlistens an earlier listener
         self.max_sinks = 4
@@ -83,8 +84,18 @@ class Gen:
         seen.add(a)
         return any(self.inst_reaches(d, b, seen) for d in self.o[a].deps)
 
+    KEEP_OPS = ("map", "filter", "merge", "snapshot", "map_c", "lift", "accum", "collect")
+
     def add(self, h, kind, vt, deps, line, role=None, cands=None):
         self.o[h] = Info(kind, vt, deps, role, cands)
+        w = line.split()
+        if self.p.p_keep and w[0] in self.KEEP_OPS and "sel:" not in line and self.r.random() < self.p.p_keep:
+            # the captured objects may be anything alive, also things that depend on this very object once a loop is
+            # closed (a cycle for the collector): they are kept alive, never read
+            c = [x for x, i in self.o.items() if i.alive and x != h and i.kind in ("S", "C")]
+            if c:
+                ks = self.r.sample(c, min(len(c), self.r.choice([1, 1, 2])))
+                line += " keep:" + ",".join(str(k) for k in ks)
         self.emit(line)
         return h
 
@@ -631,6 +642,7 @@ def analyze(lines):
     d = {}
     alias = {}
     sel_of = {}     # ref-valued object -> candidate slots
+    keeps_of = {}   # object -> slots whose handles its user function captures (keep:)
 
     def A(x):
         x = int(x)
@@ -638,9 +650,18 @@ def analyze(lines):
 
     for l in lines:
         w = l.split()
+        kept = []
+        if w and w[-1].startswith("keep:"):
+            kept = [x for x in w[-1][5:].split(",") if x]
+            w = w[:-1]
         if not w:
             continue
         op = w[0]
+        if kept:
+            try:
+                keeps_of[int(w[1])] = [A(x) for x in kept]
+            except (ValueError, IndexError):
+                pass
         try:
             if op in ("sink", "sink_co", "csink", "const", "never", "sloop", "cloop"):
                 d[int(w[1])] = dict(op=op, deps=[])
@@ -683,6 +704,9 @@ def analyze(lines):
                 alias[int(w[2])] = A(w[1])
         except (KeyError, IndexError, ValueError):
             pass
+    for h, ks in keeps_of.items():
+        if h in d:
+            d[h]["keeps"] = ks
     return d, sel_of
 
 
@@ -713,7 +737,7 @@ def full_reach(d, sel_of, a, b, seen=None):
     seen.add(a)
     v = d[a]
     nxt = list(v["deps"]) + list(v.get("reads", [])) + ([v["src"]] if "src" in v else []) + \
-        ([v["outer"]] if "outer" in v else []) + list(sel_of.get(a, []))
+        ([v["outer"]] if "outer" in v else []) + list(sel_of.get(a, [])) + list(v.get("keeps", []))
     return any(full_reach(d, sel_of, x, b, seen) for x in nxt)
 
 
@@ -750,6 +774,8 @@ def is_K3_lazy(lines):
     lazy_src = {}
     for l in lines:
         w = l.split()
+        if w and w[-1].startswith("keep:"):
+            w = w[:-1]
         if not w:
             continue
         if w[0] == "clone":
